@@ -52,11 +52,9 @@ type c40dCase struct {
 	Acts     []cbAct `json:"acts"`
 	End      string  `json:"end"` // ok | err | panic
 	Swallow  bool    `json:"swallow,omitempty"` // executor recovers its own gas panic and returns an error
-	// SwallowNil: executor recovers its own gas panic and reports success. Never generated
-	// (known-finding candidate, see TestC40KnownSwallowedOOG); Excluded counts the draws that
-	// were turned into Swallow instead.
+	// SwallowNil: executor recovers its own gas panic and reports success (regression:
+	// ProcessCallback used to commit such a callback's writes, see TestC40KnownSwallowedOOG).
 	SwallowNil bool `json:"swallow_nil,omitempty"`
-	Excluded   bool `json:"excluded_known,omitempty"`
 }
 
 const sigSwallowedOOG = "oog-swallowed-then-success-commits-writes"
@@ -198,8 +196,8 @@ func genC40d(t *rapid.T) c40dCase {
 	switch rapid.IntRange(0, 15).Draw(t, "swallow") {
 	case 0, 1:
 		c.Swallow = true
-	case 2:
-		c.Swallow, c.Excluded = true, true // would be SwallowNil: excluded by construction
+	case 2, 3:
+		c.SwallowNil = true
 	}
 	return c
 }
@@ -337,9 +335,6 @@ func runC40d(w *sim.World) func(rapid.TB, c40dCase, *vx.Case) {
 		if c.SwallowNil && execPanics && !pastLimit {
 			outcome = "ok" // swallowed an overflow on an unlimited meter and reported success: not a failure
 		}
-		if c.Excluded {
-			rec.Add("excluded_known", 1)
-		}
 		executorPanics := (execPanics && !c.Swallow && !c.SwallowNil) || (!execPanics && c.End == "panic")
 		failed := outcome != "ok"
 		retry := exec < commit
@@ -423,9 +418,7 @@ func runC40d(w *sim.World) func(rapid.TB, c40dCase, *vx.Case) {
 			if free.KVStore(storeKey).Has(c40Key(n)) {
 				present++
 				if failed && c.SwallowNil {
-					if vx.Violatef(t, rec, id, sigSwallowedOOG, "callback exceeded its gas limit, swallowed the out-of-gas panic and returned nil: ProcessCallback reports %v but key %d written by the callback is visible to the caller; %s", cbErr, n, desc) {
-						return
-					}
+					vx.Violatef(t, rec, id, sigSwallowedOOG, "callback exceeded its gas limit, swallowed the out-of-gas panic and returned nil: ProcessCallback reports %v but key %d written by the callback is visible to the caller; %s", cbErr, n, desc)
 				}
 				if failed {
 					vx.Violatef(t, rec, id, "failed-callback-writes-persist", "key %d written by a failed callback is visible to the caller; %s", n, desc)
@@ -476,6 +469,9 @@ func runC40d(w *sim.World) func(rapid.TB, c40dCase, *vx.Case) {
 		if c.Swallow && execPanics {
 			rec.Class("gas-panic-swallowed")
 		}
+		if c.SwallowNil && execPanics {
+			rec.Class("gas-panic-swallowed-returns-nil/%s", outcome)
+		}
 		switch {
 		case user == 0:
 			rec.Class("user=0")
@@ -498,25 +494,25 @@ func TestC40Direct(t *testing.T) {
 	w := sim.NewWorld(t, 1, nil)
 	vx.Check(t, vx.Prop[c40dCase]{
 		ID:        "C40",
-		Rule:      "ProcessCallback called directly: callback type x (remaining, user limit via memo JSON, chain max) incl. 0/equal/+-1/huge/infinite meter x executor script (KV writes, gas amounts placed around the limit, consume-infinity; success/error/panic; optionally swallowing its own gas panic); non-trivial = executor fails or remaining < commit; distinct by full case",
+		Rule:      "ProcessCallback called directly: callback type x (remaining, user limit via memo JSON, chain max) incl. 0/equal/+-1/huge/infinite meter x executor script (KV writes, gas amounts placed around the limit, consume-infinity; success/error/panic; optionally swallowing its own gas panic into an error or into success); non-trivial = executor fails or remaining < commit; distinct by full case",
 		MinNTFrac: 0.4,
 		Gen:       genC40d,
 		Run:       runC40d(w),
 	})
 }
 
-// TestC40KnownSwallowedOOG re-demonstrates, deterministically, the one behaviour excluded from
-// the generator: a callback that exceeds its gas limit, recovers the out-of-gas panic itself
-// and returns nil. ProcessCallback commits the callback's writes (writeFn runs because the
-// executor returned nil) and only afterwards notices the exceeded meter and reports
-// ErrCallbackOutOfGas - "ran out of gas" without "state changes discarded".
+// TestC40KnownSwallowedOOG is a deterministic regression sub-case: a callback that exceeds its
+// gas limit, recovers the out-of-gas panic itself and returns nil. ProcessCallback used to
+// commit the callback's writes (writeFn ran because the executor returned nil) and only
+// afterwards noticed the exceeded meter and reported ErrCallbackOutOfGas - "ran out of gas"
+// without "state changes discarded". Repaired in /repo by checking IsPastLimit before writeFn.
 func TestC40KnownSwallowedOOG(t *testing.T) {
 	w := sim.NewWorld(t, 1, nil)
 	fixed := c40dCase{Type: 1, Limit: 10_000_000, UserForm: 2, User: 100_000, Max: 1_000_000,
 		Acts: []cbAct{{K: "w", N: 0}, {K: "g", N: 200_000}}, End: "ok", SwallowNil: true}
 	vx.Check(t, vx.Prop[c40dCase]{
 		ID:        "C40",
-		Rule:      "deterministic re-demonstration of the excluded behaviour (executor swallows its own out-of-gas panic and returns nil) for ack and timeout callbacks",
+		Rule:      "deterministic regression sub-case (executor swallows its own out-of-gas panic and returns nil) for ack and timeout callbacks; every case non-trivial",
 		MinNTFrac: 0,
 		Gen: func(rt *rapid.T) c40dCase {
 			c := fixed
